@@ -300,6 +300,54 @@ def check_protocols(ctx: Ctx, view: View) -> None:
                 ctx.ob(rule, con, b is None, f"{c.name}.{key[1]} {text}" + (f" [{b[2]}]" if b else ""), node=node, slots={"write": what})
 
 
+def check_refresh_before_validation(ctx: Ctx, view: View) -> None:
+    """2.4 (error path): a method that edits the current value and THEN validates it (a call that raises on a bad value)
+    refreshes the derived views before the validation: the rejected value stays in the dictionary view, so the array
+    and normalised views must follow it -- refreshed after the check, they keep the old value when the check raises and
+    the two views of one design space disagree from then on."""
+    ds = view.ds
+    upd = Protocol(view, value_source_write, lambda c, a: c == ds and isinstance(a, ast.Expr) and _is_self_call(c, a, UPDATE_VALUE), after_only=True, name="refresh")
+
+    def may_raise(name: str) -> bool:
+        g = ds.methods.get(name) or ds.methods.get(mangle(ds.name, name))
+        return g is not None and name.lstrip("_").startswith("check") and any(isinstance(n_, ast.Raise) for n_ in ast.walk(g))
+
+    n = 0
+    for key in sorted(view.methods):
+        c, f = view.methods[key]
+        if c != ds or key[1] == "__init__" or not view.is_public(key):
+            continue
+        nodes = upd.write_nodes(key)
+        if not nodes:
+            continue
+        cfg = cfg_of(f)
+        refresh = {cfg.node_of(a) for a in stmts_of(f) if isinstance(a, ast.Expr) and _is_self_call(c, a, UPDATE_VALUE)}
+        checks = [a for a in walk_body(f) if isinstance(a, ast.Call) and isinstance(a.func, ast.Attribute) and dotted(a.func.value) == "self" and may_raise(a.func.attr) and cfg.has(a)]
+        def refreshes(g_name: str) -> bool:
+            g = ds.methods.get(g_name) or ds.methods.get(mangle(ds.name, g_name))
+            return g is not None and any(isinstance(a, ast.Expr) and _is_self_call(c, a, UPDATE_VALUE) for a in stmts_of(g))
+
+        def rolled_back(chk: ast.Call) -> bool:
+            """the validation sits in a try whose handlers undo the edit through a method that refreshes the views (or
+            refresh them directly) and raise again: the error path leaves consistent views too"""
+            for t in (t_ for t_ in ast.walk(f) if isinstance(t_, ast.Try)):
+                if not any(chk is n_ for b_ in t.body for n_ in ast.walk(b_)) or not t.handlers:
+                    continue
+                return all(
+                    any(isinstance(n_, ast.Raise) for n_ in ast.walk(h))
+                    and any(isinstance(n_, ast.Call) and isinstance(n_.func, ast.Attribute) and dotted(n_.func.value) == "self" and (n_.func.attr.endswith(UPDATE_VALUE) or refreshes(n_.func.attr)) for n_ in ast.walk(h))
+                    for h in t.handlers
+                )
+            return False
+
+        for chk in checks:
+            cn = cfg.node_of(chk)
+            bad = [] if rolled_back(chk) else [node for wn, node, _ in nodes if wn != cn and cfg.path(wn, cn, avoid=refresh - {wn}) is not None and wn not in refresh]
+            n += 1
+            ctx.ob("2.4-refresh-before-validation", view.label(key), not bad, f"{key[1]} validates the new current value with {chk.func.attr}() before refreshing the cached arrays: when the validation raises, the dictionary view holds the rejected value while get_current_value() / the normalised value still return the previous one", node=chk, stmt=f"refresh precedes {chk.func.attr}()")
+    ctx.floor("2.4-refresh-before-validation", 1)
+
+
 # ---------------------------------------------------------------------------
 # 2.1 co-update
 
@@ -953,6 +1001,7 @@ def run(ctx: Ctx) -> None:
     view = View(ctx, ds)
     check_coupdate(ctx, view)
     check_protocols(ctx, view)
+    check_refresh_before_validation(ctx, view)
     check_norm_cache(ctx, view)
     check_index_shift(ctx, view)
     check_str_args(ctx, view)
@@ -983,6 +1032,8 @@ def run(ctx: Ctx) -> None:
 
 # ---------------------------------------------------------------------------
 WITNESSES = [
+    {"name": "value-check-outside-the-rollback", "file": DSF, "old": "            try:\n                array_value = atleast_1d(value)\n                self._check_value(array_value, name)\n", "new": "            array_value = atleast_1d(value)\n            self._check_value(array_value, name)\n            try:\n", "expect": "2.4"},
+    {"name": "current-value-validated-before-refresh", "file": DSF, "old": "        self.__update_current_metadata()\n        if self.__current_value:\n            self._check_current_names()", "new": "        if self.__current_value:\n            self._check_current_names()\n        self.__update_current_metadata()", "expect": "2.4"},
     {"name": "seeded-C02-9", "file": "algos/design_space.py", "old": "        \"\"\"\n        return self.unnormalize_vect(vector, no_check=no_check, out=out)\n\n", "new": "        \"\"\"\n        return self.unnormalize_vect(vector, no_check, out=out)\n\n", "expect": "2.8", "note": "untransform_vect passes no_check positionally, so it lands on minus_lb"},
     {"name": "gradient-rounded-like-a-point", "file": DSF, "old": "        if minus_lb and not self.__no_integer:\n            self.round_vect(out, copy=False)", "new": "        if not self.__no_integer:\n            self.round_vect(out, copy=False)", "expect": "2.7"},
     {"name": "out-buffer-rebound-to-the-input", "file": DSF, "old": "        else:\n            out[...] = x_vect\n\n        # Unnormalize the relevant components:", "new": "        else:\n            out *= 0\n            out = x_vect\n\n        # Unnormalize the relevant components:", "expect": "2.9"},
